@@ -347,7 +347,7 @@ def rule_repeats_and_sheets(ctx):
 
     def repeat_cell(ch):
         # "1_0" and non-ASCII digits are numbers for Python's int() but not for ODF (positiveInteger)
-        repeat = ch.choose("number-columns-repeated", ["0", "-1", "x", "", "1.5", "1_0", "\u0661"])
+        repeat = ch.choose("number-columns-repeated", ["0", "-1", "x", "", "1.5", "1_0", "\u0661", "\u00a02", "2\u2028"])
         a = text_atom("A")
         document = build_document([[({}, [({"table:number-columns-repeated": repeat}, [Element("text:p", text=a)])])]])
         rows, outcome = run_ods_rows(model, ch, document, 1)
@@ -355,10 +355,10 @@ def rule_repeats_and_sheets(ctx):
             return ("columns-repeated=%r" % repeat, None, None)
         return ("columns-repeated=%r" % repeat, "broken column repeat count not refused with DataFormatError", outcome)
 
-    decide_kinds(ctx, "O15.2", "ods_rows(broken repeat counts)", "cutplace.rowio.ods_rows", repeat_cell, min_cells=7)
+    decide_kinds(ctx, "O15.2", "ods_rows(broken repeat counts)", "cutplace.rowio.ods_rows", repeat_cell, min_cells=9)
 
     def blank_count_cell(ch):
-        count = ch.choose("text:c", ["x", "", "1.5", "1_0", "\u0662", "-1", "-3"])
+        count = ch.choose("text:c", ["x", "", "1.5", "1_0", "\u0662", "-1", "-3", "\u00a02"])
         a = text_atom("A")
         document = build_document([[({}, [({}, [Element("text:p", text=a, children=[Element("text:s", {"text:c": count})])])])]])
         rows, outcome = run_ods_rows(model, ch, document, 1)
